@@ -75,7 +75,7 @@ CONFIG = {
     },
     "C20": {
         "level": "exploration",
-        "rule": "C20: triples of related values (clone, local mutation, same-type, any-type) with all nine ordered Equals/CompareTo results checked against the algebraic laws.",
+        "rule": "C20: triples of related values (clone, local mutation, same-type, any-type) with all nine ordered Equals/CompareTo results checked against the algebraic laws; containers changed in place after a comparison re-checked against the same laws.",
         "groups": [G("c20", shards={"quick": 4, "thorough": 16}, timeout={"quick": 300, "thorough": 2400})],
         "assumptions": [
             "NaN is excluded from float scalars, summaries and float arrays (the library compares with IEEE ==, which is not reflexive on NaN; the statement does not quantify over NaN)",
@@ -332,7 +332,7 @@ MANIFEST_TEXT = {
     },
     "C20": {
         "technique": "property-based testing: generated triples of near values checked against algebraic laws (totality, reflexivity, symmetry, transitivity, antisymmetry, type ordering, decode equality)",
-        "level_text": "Generated-input exploration: each case is a triple of related values over all 20 types (clones, single mutations such as a reordered or re-keyed map, a changed summary count, a retyped element, independent values); all nine ordered pairs are evaluated and every law of the statement is asserted on them, plus the full 20x20 mixed-type matrix.",
+        "level_text": "Generated-input exploration: each case is a triple of related values over all 20 types (clones, single mutations such as a reordered or re-keyed map, a changed summary count, a retyped element, independent values); all nine ordered pairs are evaluated and every law of the statement is asserted on them, plus the full 20x20 mixed-type matrix. A second sub-check compares a container, changes it in place (Put, PutAll, Read into the used object, Clear, NewList, Add, Set, also on nested containers) and re-evaluates every law on (container, its decoded encoding, other value) after each change.",
         "level_note": "Laws are checked on sampled triples; transitivity violations that need three specific unrelated values may be missed.",
     },
     "C08": {
